@@ -8,7 +8,12 @@ from vlib.coqfmt import cfloat, cnat, cbool, clist
 ENV_BY_TIER = {"quick": {"NUMBA_DISABLE_JIT": "1"}, "thorough": {}}
 
 RULE = ("msprime tree sequences (2-9 contemporaneous samples, 1-1000 bp, recombination, Kingman/Beta/Dirac mergers "
-        "=> polytomies; half of them with ALL node ids renumbered at random, so samples are not ids 0..n-1) x prior distribution (lognorm, gamma) x timepoints (integer 2..30, or an explicit grid: "
+        "=> polytomies) decorated with valid-but-unusual features: ~45% through gen.exotic (extra node flag bits, all node ids "
+        "renumbered, mutations above roots, monomorphic sites, unknown mutation times, arbitrary alleles, populations), 30% "
+        "renumbered, 15% with tied node times, 12% with a unary chain above a root (allow_unary=True); 12% with "
+        "approximate_priors=True, approx_prior_size in {10,100,1000} in a private XDG_CACHE_HOME, cold vs warm grid compared bit "
+        "for bit; population size passed as int / float / np.float64 / 1-element array / PopulationSizeHistory (same object "
+        "reused); a MixturePrior object reused for a second grid; x prior distribution (lognorm, gamma) x timepoints (integer 2..30, or an explicit grid: "
         "sorted or shuffled, starting at 0 or not, 2-12 values over 1e-3..1e5) x population size (scalar 0.5..1e4 or "
         "a 2-4 epoch PopulationSizeHistory); a case is non-trivial when the tree sequence has >= 2 non-sample nodes "
         "with different descendant counts or the thinning loop of create_timepoints adds a quantile")
@@ -32,16 +37,53 @@ def dist_funcs(distr):
             lambda p, a, b: scipy.stats.gamma.ppf(p, a, scale=1 / b))
 
 
+def tie_times(rng, ts):
+    """coarsen the node times so that unrelated non-sample nodes get EQUAL times (valid as long as every
+    parent stays strictly older than its children); None if no coarsening is valid"""
+    import numpy as np
+    for c in (rng.choice([1, 2, 4]), 8, 16):
+        t = ts.dump_tables()
+        tm = np.ceil(np.array(t.nodes.time) * c) / c
+        t.nodes.time = tm
+        try:
+            import tskit
+            t.sort()
+            t.mutations.time = np.full(t.mutations.num_rows, tskit.UNKNOWN_TIME)
+            out = t.tree_sequence()
+        except Exception:
+            continue
+        nz = [x for x in tm if x > 0]
+        if len(set(nz)) < len(nz):
+            return out
+    return None
+
+
 def make_case(rng):
+    """returns (case description for the replay file, the tree sequence actually used)"""
     n = rng.choice([2, 3, 3, 4, 5, 6, 7, 8, 9])
     ts = gen.sim_ts(rng, n=n, historical=False)
-    permuted = rng.random() < 0.5
-    if permuted:
+    deco = []
+    allow_unary = False
+    if rng.random() < 0.12:
+        u = gen.unary_chain_ts(rng, ts)
+        if u is not None:
+            ts, allow_unary = u, True
+            deco.append("unary_chain")
+    if rng.random() < 0.3:
+        t2 = tie_times(rng, ts)
+        if t2 is not None:
+            ts = t2
+            deco.append("tied_times")
+    if rng.random() < 0.3:
         # node ids carry no meaning: samples need not be ids 0..n-1 (forward simulators, subset())
         ts = gen.permute_nodes(rng, ts)
+        deco.append("permute_nodes")
+    if rng.random() < 0.45:
+        ts, applied = gen.exotic(rng, ts, p=0.4)
+        deco += applied
     distr = rng.choice(["lognorm", "gamma"])
     if rng.random() < 0.55:
-        tp = rng.choice([2, 3, 4, 5, 6, 8, 10, 15, 20, 20, 30])
+        tp = rng.choice([2, 2, 3, 4, 5, 6, 8, 10, 15, 20, 20, 30])
     else:
         m = rng.randint(2, 12)
         scale = 10.0 ** rng.randint(-3, 4)
@@ -58,8 +100,10 @@ def make_case(rng):
         tp = [float(v) for v in vals]
         if len(tp) < 2:
             tp = [0.0, 1.0]
+    poptype = "float"
     if rng.random() < 0.6:
         pop = rng.choice([1.0, 0.5, 3.0, 100.0, 1e4, 1])
+        poptype = rng.choice(["float", "float", "np.float64", "np.array"]) if isinstance(pop, float) else "int"
     else:
         e = rng.randint(2, 4)
         sizes = [rng.choice([0.5, 1.0, 10.0, 200.0, 5e3]) for _ in range(e)]
@@ -67,7 +111,10 @@ def make_case(rng):
         while len(br) < e - 1:
             br.append(br[-1] + 1.0)
         pop = {"population_size": sizes, "time_breaks": br}
-    return {"ts": gen.ts_tables_dict(ts), "distr": distr, "timepoints": tp, "pop": pop, "permuted": permuted}
+    approx = rng.choice([10, 100, 1000]) if rng.random() < 0.12 else None
+    case = {"ts": gen.ts_tables_dict(ts), "distr": distr, "timepoints": tp, "pop": pop, "poptype": poptype,
+            "deco": deco, "allow_unary": allow_unary, "approx": approx}
+    return case, ts
 
 
 def pop_obj(pop):
@@ -77,27 +124,68 @@ def pop_obj(pop):
     return demography.PopulationSizeHistory(pop)
 
 
-def run_impl(case):
+def same_grid(p, q):
+    import numpy as np
+    return (np.array_equal(np.array(p.timepoints), np.array(q.timepoints)) and
+            np.array_equal(np.array(p.nonfixed_nodes), np.array(q.nonfixed_nodes)) and
+            p.grid_data.shape == q.grid_data.shape and np.array_equal(p.grid_data, q.grid_data, equal_nan=True))
+
+
+def run_impl(case, ts=None, workdir=None):
     """the public call + the intermediate objects of the same code path (inputs of the model)"""
+    import os
+    import shutil
     import numpy as np
     import tsdate
     import tsdate.prior as P
-    ts = gen.ts_from_dict(case["ts"])
+    if ts is None:
+        ts = gen.ts_from_dict(case["ts"])
     tp = case["timepoints"]
     tp_arg = tp if isinstance(tp, int) else np.array(tp, dtype=float)
     pop = case["pop"]
-    pop_arg = pop_obj(pop) if isinstance(pop, dict) else pop
-    with np.errstate(all="ignore"):
-        prior = tsdate.build_prior_grid(ts, pop_arg, tp_arg, prior_distribution=case["distr"])
-        mp = P.MixturePrior(ts, prior_distribution=case["distr"])
     popo = pop_obj(pop)
+    if isinstance(pop, dict):
+        pop_arg = popo            # the SAME object is reused for every call below
+    else:
+        pt = case.get("poptype", "float")
+        pop_arg = {"np.float64": np.float64(pop), "np.array": np.array([float(pop)])}.get(pt, pop)
+    kw = {"prior_distribution": case["distr"]}
+    if case.get("allow_unary"):
+        kw["allow_unary"] = True
+    extra = {}
+    old_xdg = os.environ.get("XDG_CACHE_HOME")
+    try:
+        if case.get("approx"):
+            d = os.path.join(workdir or "/tmp", "xdg_c16")
+            shutil.rmtree(d, ignore_errors=True)
+            os.makedirs(d)
+            os.environ["XDG_CACHE_HOME"] = d
+            kw.update(approximate_priors=True, approx_prior_size=case["approx"])
+        with np.errstate(all="ignore"):
+            prior = tsdate.build_prior_grid(ts, pop_arg, tp_arg, **kw)          # cold cache when approx
+            if case.get("approx"):
+                extra["warm"] = tsdate.build_prior_grid(ts, pop_arg, tp_arg, **kw)   # warm: table read from disk
+            mkw = {"prior_distribution": case["distr"], "allow_unary": bool(case.get("allow_unary"))}
+            if case.get("approx"):
+                mkw.update(approximate_priors=True, approx_prior_size=case["approx"])
+            mp = P.MixturePrior(ts, **mkw)
+            # the same MixturePrior object reused: a second grid first, then the one asked for
+            other = 3 if isinstance(tp, int) else 4
+            mp.make_discretised_prior(pop_arg, other)
+            extra["reused"] = mp.make_discretised_prior(pop_arg, tp_arg)
+    finally:
+        if old_xdg is None:
+            os.environ.pop("XDG_CACHE_HOME", None)
+        else:
+            os.environ["XDG_CACHE_HOME"] = old_xdg
     table = mp.base_priors.prior_with_max_total_tips()
     if isinstance(tp, int):
         with np.errstate(all="ignore"):
             tc = P.create_timepoints(mp.base_priors, tp + 1)
     else:
         tc = popo.to_coalescent_timescale(np.sort(np.array(tp, dtype=float)))
-    return {"ts": ts, "prior": prior, "params": mp.prior_params, "table": table, "tc": np.array(tc), "pop": popo}
+    return {"ts": ts, "prior": prior, "params": mp.prior_params, "table": table, "tc": np.array(tc), "pop": popo,
+            "extra": extra}
 
 
 # ------------------------------------------------------------------ the property on the implementation
@@ -107,6 +195,15 @@ def oracle(ctx, case, r):
     ts, prior = r["ts"], r["prior"]
     tpts = np.array(prior.timepoints, dtype=float)
     rp = {"case": case}
+    ex = r.get("extra", {})
+    if "warm" in ex and not same_grid(prior, ex["warm"]):
+        ctx.oracle_fail("approx-cold-warm", "approximate_priors=True, approx_prior_size=%r: the grid built right after the lookup "
+                        "table was computed (cold cache) differs from the grid built from the cached table (warm)" % case.get("approx"), rp)
+        return
+    if "reused" in ex and not same_grid(prior, ex["reused"]):
+        ctx.oracle_fail("reused-object", "a MixturePrior object reused for a second make_discretised_prior call gives a grid "
+                        "different from build_prior_grid on the same arguments", rp)
+        return
     if not (len(tpts) >= 2 and np.all(np.diff(tpts) > 0)):
         ctx.oracle_fail("grid-not-increasing", "timepoints %r are not strictly increasing" % tpts.tolist()[:12], rp)
         return
@@ -250,7 +347,7 @@ def correspondence(ctx, cases, results):
         tp = case["timepoints"]
         table = r["table"]
         max_n = len(table) - 1
-        if isinstance(tp, int) and max_n <= 9 and tp <= 20:
+        if isinstance(tp, int) and max_n <= 9 and tp <= 20 and not case.get("approx"):
             npts = tp + 1
             pcs = np.linspace(0, 1, npts + 1)[1:-1]
             mine = np.array([j * (1.0 / npts) for j in range(1, npts)])
@@ -284,22 +381,27 @@ def correspondence(ctx, cases, results):
 def summarize(case, r):
     tp = case["timepoints"]
     d = {"samples": sum(1 for f in case["ts"]["nodes_flags"] if f & 1), "nodes": len(case["ts"]["nodes_time"]),
-         "edges": len(case["ts"]["edges"]), "distr": case["distr"], "timepoints": tp, "pop": case["pop"]}
+         "edges": len(case["ts"]["edges"]), "distr": case["distr"], "timepoints": tp, "pop": case["pop"],
+         "deco": case.get("deco"), "approx": case.get("approx"), "allow_unary": case.get("allow_unary")}
     if r is not None:
         d["grid"] = [float(x) for x in r["prior"].timepoints][:8]
     return d
 
 
 def run(ctx, model_ok=True):
+    import logging
     import numpy as np
+    logging.getLogger().setLevel(logging.ERROR)   # allow_unary / cache-initialisation warnings are expected
     n = ctx.n(80, 600)
-    cases = [make_case(ctx.rng) for _ in range(n)]
+    made = [make_case(ctx.rng) for _ in range(n)]
+    cases = [c for c, _ts in made]
     results = []
-    for c in cases:
+    for c, ts in made:
         try:
-            r = run_impl(c)
+            r = run_impl(c, ts, ctx.work)
         except Exception as e:
-            ctx.oracle_fail("exception", "build_prior_grid raised %s: %s" % (type(e).__name__, str(e)[:300]), {"case": c})
+            ctx.oracle_fail("exception:%s" % type(e).__name__,
+                            "build_prior_grid raised %s: %s" % (type(e).__name__, str(e)[:300]), {"case": c})
             results.append(None)
             continue
         results.append(r)
@@ -307,7 +409,11 @@ def run(ctx, model_ok=True):
     for c, r in zip(cases, results):
         nontriv = False
         kind = ("count" if isinstance(c["timepoints"], int) else "user-grid") + "/" + c["distr"] + \
-            ("/epochs" if isinstance(c["pop"], dict) else "/const") + ("/permuted-ids" if c.get("permuted") else "")
+            ("/epochs" if isinstance(c["pop"], dict) else "/const")
+        for d in c.get("deco", []):
+            ctx.tally("deco:" + d)
+        if c.get("approx"):
+            ctx.tally("approximate_priors(size=%d)" % c["approx"])
         if r is not None:
             ks = set()
             for u in r["prior"].nonfixed_nodes:
@@ -323,11 +429,11 @@ def run(ctx, model_ok=True):
 
 def search(ctx):
     for _ in range(ctx.n(300, 1500)):
-        c = make_case(ctx.rng)
+        c, ts = make_case(ctx.rng)
         try:
-            oracle(ctx, c, run_impl(c))
+            oracle(ctx, c, run_impl(c, ts, ctx.work))
         except Exception as e:
-            ctx.oracle_fail("exception", "build_prior_grid raised %s: %s" % (type(e).__name__, str(e)[:300]), {"case": c})
+            ctx.oracle_fail("exception:%s" % type(e).__name__, "build_prior_grid raised %s: %s" % (type(e).__name__, str(e)[:300]), {"case": c})
         if ctx.oracle_fails:
             return
 
@@ -336,7 +442,7 @@ def replay(ctx, data):
     case = data["case"]["case"]
     before = len(ctx.oracle_fails)
     try:
-        oracle(ctx, case, run_impl(case))
+        oracle(ctx, case, run_impl(case, None, ctx.work))
     except Exception:
         return False
     return len(ctx.oracle_fails) == before
